@@ -324,7 +324,7 @@ EmitScope == pc \in {"start", "thresholded", "components", "weighed"}
 EmitInv == (Emit /\ pc = "weighed") =>
   PrintT("CASE " \o ToJson([n |-> N, C |-> Flat(C, N), thr |-> thr,
                             alts |-> SetToSeq({Alt(c) : c \in MaxPop(comps, w)}),
-                            nc |-> Cardinality(comps), oneway |-> OneWay,
+                            nc |-> Cardinality(comps), comps |-> SetToSeq({SetToSeq(c) : c \in comps}), oneway |-> OneWay,
                             bigger |-> BiggerLoses, thrm |-> ThrMatters]))
 
 (* the expected container of the result for every input container, printed once *)
